@@ -103,19 +103,8 @@ func runRest(c Case) (out Out) {
 				panic(p)
 			}
 		}()
-		for _, a := range script {
-			if a[0].(string) == "copy" {
-				doCopy(w, a, func() {
-					cmd := recvGate()
-					if cmd.selfCancel {
-						cancelParent()
-						for j := 0; j < cmd.yield; j++ {
-							runtime.Gosched()
-						}
-					}
-				}, func(k hack) { acks <- k })
-				continue
-			}
+		rcdl := false
+		gate := func() {
 			cmd := recvGate()
 			if cmd.selfCancel {
 				cancelParent()
@@ -123,19 +112,28 @@ func runRest(c Case) (out Out) {
 					runtime.Gosched()
 				}
 			}
+			if rcdl {
+				rcdl = false
+				doRCDeadline(w)
+			}
+		}
+		for _, a := range script {
+			switch a[0].(string) {
+			case "rcdl":
+				rcdl = true
+				continue
+			case "copy":
+				doCopy(w, a, gate, func(k hack) { acks <- k })
+				continue
+			}
+			gate()
 			ack, stop := doAction(w, r, a)
 			acks <- ack
 			if stop {
 				break
 			}
 		}
-		cmd := recvGate()
-		if cmd.selfCancel {
-			cancelParent()
-			for j := 0; j < cmd.yield; j++ {
-				runtime.Gosched()
-			}
-		}
+		gate()
 		acks <- hack{obs: []any{"none"}, ended: true}
 	})
 
